@@ -19,6 +19,9 @@ structure ExprSpec.Sound {ε : Type} (X : ExprSpec ε) : Prop where
   parses : ∀ e, X.wfb e = true → IsExpr (X.toks e) (X.tree e)
   /-- an expression that may stand as a statement is not taken by `parse_assignment` -/
   noAssign : ∀ e, X.wfb e = true → X.stmtb e = true → ∀ k, SStop k → Fails gAssignment (X.toks e ++ k)
+  /-- a target of an assignment is taken by `parse_dot_ops` up to the assignment operator -/
+  lhs : ∀ e, X.lhsb e = true → ∀ (op : Tok) (r : List Tok), op.kind ∈ assignOps →
+    Parses (.ref nDotOps) (X.toks e ++ op :: r) (op :: r) (X.tree e)
 
 /-! ## tables -/
 
@@ -245,7 +248,10 @@ theorem firstKindOK_cons {p : Kind → Bool} {l : List Tok} (h : firstKindOK p l
 
 theorem Stmt.first (s : Stmt ε) (h : s.WF X) : ∃ t r, s.toks X = t :: r ∧ startOK t.kind = true := by
   cases s with
-  | assign lhs op e => exact ⟨lhs, _, rfl, (ident_start_table _ h.1 h.2.1).2.1⟩
+  | assign lhs op e =>
+    obtain ⟨t, r, hts, hst⟩ := firstKindOK_cons h.2.1
+    have hst' : t.kind ∈ identKinds ∧ t.kind ≠ Kind.Type := by simpa [lhsStartOK] using hst
+    exact ⟨t, r ++ op :: X.toks e, by simp [Stmt.toks, hts], (ident_start_table _ hst'.1 hst'.2).2.1⟩
   | expr e =>
     obtain ⟨t, r, he, hs⟩ := firstKindOK_cons h.2.2
     exact ⟨t, r, he, (exprStart_split hs).1⟩
@@ -282,21 +288,23 @@ theorem sstop_end {t : Tok} (r : List Tok) (h : t.kind ∈ stmtEnds) : SStop (t 
 variable (hX : X.Sound)
 include hX
 
-theorem rt_assign (lhs op : Tok) (e : ε) (h : (Stmt.assign lhs op e).WF X) : StmtRT X (.assign lhs op e) := by
+theorem rt_assign (lhs : ε) (op : Tok) (e : ε) (h : (Stmt.assign lhs op e).WF X) : StmtRT X (.assign lhs op e) := by
   intro k hk
-  obtain ⟨hl, hty, hop, he⟩ := h
+  obtain ⟨hl, hfirst, hop, he⟩ := h
   obtain ⟨hw, _⟩ := exprOK_split X he
-  obtain ⟨hnkw, _, hc⟩ := ident_start_table _ hl hty
-  obtain ⟨hb0, hopc⟩ := assign_table _ hop
-  have hs0 : Stop 0 (op :: (X.toks e ++ k)) := by
-    intro t r e; cases e; exact hb0
-  have hdot := parses_dotops_ident lhs (op :: (X.toks e ++ k)) hl hs0
+  obtain ⟨t, r, hts, hst⟩ := firstKindOK_cons hfirst
+  have hst' : t.kind ∈ identKinds ∧ t.kind ≠ Kind.Type := by simpa [lhsStartOK] using hst
+  obtain ⟨hnkw, _, hc⟩ := ident_start_table _ hst'.1 hst'.2
+  obtain ⟨_, hopc⟩ := assign_table _ hop
+  have hdot := hX.lhs lhs hl op (X.toks e ++ k) hop
   have hopp : Parses (toks assignOps) (op :: (X.toks e ++ k)) (X.toks e ++ k) (.leaf op) := Parses.toks hop hopc
   have hex := hX.parses e hw k hk.stop8
-  have hg : Parses gAssignment (lhs :: op :: (X.toks e ++ k)) k (binNode (terminal (.leaf lhs)) (.leaf op) (X.tree e)) :=
+  have hg : Parses gAssignment (X.toks lhs ++ op :: (X.toks e ++ k)) k (binNode (X.tree lhs) (.leaf op) (X.tree e)) :=
     Parses.map (fn := fun v => binNode (v.nth 0) (v.nth 1) (v.nth 2))
       (Parses.seqL (ParsesList.cons hdot (ParsesList.cons hopp (ParsesList.cons hex ParsesList.nil))))
-  exact stmt_via 14 gAssignment [.ref nExpr] rfl lhs _ k _ hc (not_kw_of_take 14 _ hnkw) hg
+  rw [hts] at hg
+  have hfin := stmt_via 14 gAssignment [.ref nExpr] rfl t _ k _ hc (not_kw_of_take 14 _ hnkw) hg
+  simpa [Stmt.toks, Stmt.tree, hts] using hfin
 
 theorem rt_expr (e : ε) (h : (Stmt.expr e).WF X) : StmtRT X (.expr e) := by
   intro k hk
